@@ -85,7 +85,7 @@ def check(ck):
         g = rb.enclosing(ups[0], ast.If)
         ok2 = g is not None and A.norm(g.test) == "context.recursive.context_args is None" and rb.inside(ups[0], g.body[0]) or \
             (g is not None and A.norm(g.test) == "context.recursive.context_args is None" and any(rb.inside(ups[0], b) for b in g.body))
-        ok2 = ok2 and len(ups[0].args) > 1 and A.norm(ups[0].args[1]) == "calling_frame.recursive_context.context_args"
+        ok2 = ok2 and len(ups[0].args) > 1 and rb.xnorm(ups[0].args[1], rb.nodes(ups[0])[0]) == "CallStack.get().get_calling_frame().recursive_context.context_args"
     ck.ob(R2, rb.key(ups[0] if ups else None, "inherit-iff-unset"), bool(ok2),
           "the caller's context args are inherited only when the call attached none" if ok2 else
           "context args are not inherited exactly when the call has none of its own (guard or source changed)", rb.where())
@@ -94,10 +94,13 @@ def check(ck):
     if ok3:
         c = rebuilt[0]
         args = [A.norm(a) for a in c.args]
-        ok3 = args == ["ref.fn_reference", "ref.args", "ref.kwargs", "context.recursive.context_args"]
+        comp = rb.pm.get(c)
+        cv = comp.generators[0].target.id if isinstance(comp, ast.ListComp) and len(comp.generators) == 1 and isinstance(comp.generators[0].target, ast.Name) \
+            and not comp.generators[0].ifs and A.norm(comp.generators[0].iter) == "fn_reference_with_args" else None
+        ok3 = cv is not None and args == [cv + ".fn_reference", cv + ".args", cv + ".kwargs", "context.recursive.context_args"]
         # the rebuilt list is what is dispatched, and it is built after the update
         ok3 = ok3 and all(rb.cfg.must_pass(rb.nodes_all(ups), i) for i in rb.nodes(c))
-    ck.ob(R2, rb.key(rebuilt[0] if rebuilt else None, "rebuild"), ok3, "references are rebuilt with the inherited context args" if ok3 else
+    ck.ob(R2, rb.key(None, "rebuild"), ok3, "references are rebuilt with the inherited context args" if ok3 else
           "after inheriting, the call references are not rebuilt from (fn_reference, args, kwargs, updated context args)", rb.where())
     disp = rb.one([c for c in rb.calls("batch_run")], "runner.batch_run dispatch")
     okd = A.norm(A.kwarg(disp, "context")) == "context" and A.norm(A.kwarg(disp, "fn_reference_with_args")) == "fn_reference_with_args"
@@ -161,7 +164,7 @@ def check(ck):
     ok4 = False
     for r in raises:
         g = rb.enclosing(r, ast.If)
-        if g is not None and "calling_frame.recursive_context.prevent_further_calls" in A.norm(g.test):
+        if g is not None and "CallStack.get().get_calling_frame().recursive_context.prevent_further_calls" in rb.xnorm(g.test, rb.nodes(g.test)[0]):
             tn = [n.id for n in rb.cfg.nodes if n.kind == "test" and n.ast is g.test]
             # on the true edge the dispatch is unreachable; and the test dominates the dispatch
             dn = rb.nodes(disp)
